@@ -1691,6 +1691,29 @@ private:
         return false; // not inserted yet => no tags to clean
       }
       ::SSL_set_fd(s->ssl, cfd);
+      // Connecting BY NAME: send SNI and, when the peer is verified, bind the
+      // certificate to that name - a chain to a trusted root alone only proves
+      // the peer owns SOME certificate, not one issued for this host. (IP-literal
+      // targets carry no name to check.)
+      if (!isIPv4 && !isIPv6)
+      {
+        ::SSL_set_tlsext_host_name(s->ssl, cr.host.c_str());
+        if (_config.clientTls.verifyPeer && ::SSL_set1_host(s->ssl, cr.host.c_str()) != 1)
+        {
+          // Without the name bound the handshake would verify the chain only.
+          decltype(_cbs.onClose) closeCb;
+          { std::lock_guard<std::mutex> g(_cbMutex); closeCb = _cbs.onClose; }
+          if (closeCb)
+          {
+            closeCb(cr.sid, TransportErrorInfo{TransportError::TLSHandshake, "SSL_set1_host failed"});
+          }
+          err(TransportError::TLSHandshake, "SSL_set1_host failed");
+          cancelConnectTimeout(s.get());
+          ::SSL_free(s->ssl);
+          ::close(cfd);
+          return false; // not inserted yet => no tags to clean
+        }
+      }
       ::SSL_set_connect_state(s->ssl);
       s->tlsState = TlsState::Handshake;
       s->tlsStart = MonoClock::now();
